@@ -278,10 +278,10 @@ pub fn deep_small_src(max_n: usize) -> BoxedStrategy<EntrySrc> {
     .boxed()
 }
 
-/// zstd above level 12 costs tens of milliseconds per block; such configurations only get small
+/// zstd above level 6 costs up to tens of milliseconds per block (20 ms at level 12, measured); such configurations only get small
 /// files with few index levels so that a case stays bounded
 pub fn heavy(c: &WConf) -> bool {
-    c.codec == Codec::Zstd && c.level > 12
+    c.codec == Codec::Zstd && c.level > 6
 }
 
 fn small_src() -> BoxedStrategy<EntrySrc> {
@@ -304,8 +304,26 @@ fn spec_from(conf: BoxedStrategy<WConf>, tier: Tier) -> BoxedStrategy<FileSpec> 
     .boxed()
 }
 
+/// entry counts around 2^16, with configurations that put them into very few blocks / very many offset slots
+pub fn wide_count_spec() -> BoxedStrategy<FileSpec> {
+    (
+        prop::sample::select(vec![65_535u32, 65_536, 65_537, 70_001]),
+        any::<u32>(),
+        prop_oneof![Just(Some(usize::MAX)), Just(None), Just(Some(1024usize))],
+        prop_oneof![Just(Some(1usize)), Just(None), Just(Some(usize::MAX))],
+        prop_oneof![3 => Just(Codec::None), 1 => Just(Codec::Snappy), 1 => Just(Codec::Lz4)],
+        0u8..=2,
+    )
+        .prop_map(|(n, start, block_size, interval, codec, levels)| FileSpec {
+            conf: WConf { codec, level: 0, block_size, interval, levels },
+            src: EntrySrc::Counter { start: start / 2, stride: 1, n, pad: 0, fill: 0, vlen: 0, vkind: 0 },
+        })
+        .boxed()
+}
+
 pub fn file_spec(tier: Tier) -> BoxedStrategy<FileSpec> {
-    spec_from(wconf(), tier)
+    // 1 case in ~150 has 2^16-ish entries
+    prop_oneof![150 => spec_from(wconf(), tier), 1 => wide_count_spec()].boxed()
 }
 
 pub fn file_spec_light(tier: Tier) -> BoxedStrategy<FileSpec> {
@@ -350,14 +368,28 @@ pub fn cursor_op() -> BoxedStrategy<Op> {
 
 /// Run-biased histories: bursts of next/prev interleaved with absolute moves.
 pub fn history(max_len: usize) -> BoxedStrategy<Vec<Op>> {
+    // a sweep: many consecutive seeks on neighbouring keys (same block), then a seek far away
+    let sweep = (any::<u16>(), 6i8..=20, any::<bool>(), any::<u16>(), any::<bool>()).prop_map(|(base, n, eq, far, far_le)| {
+        let mut v: Vec<Op> = (0..n)
+            .map(|j| {
+                let p = Probe::KeyOff(base, j);
+                if eq && j % 2 == 1 {
+                    Op::Eq(p)
+                } else {
+                    Op::Ge(p)
+                }
+            })
+            .collect();
+        v.push(if far_le { Op::Le(Probe::Key(far)) } else { Op::Ge(Probe::Key(far)) });
+        v
+    });
     let burst = prop_oneof![
-        (1usize..=12).prop_map(|n| vec![Op::Next; n]),
-        (1usize..=12).prop_map(|n| vec![Op::Prev; n]),
-        (1usize..=40).prop_map(|n| vec![Op::Next; n]),
-        (1usize..=40).prop_map(|n| vec![Op::Prev; n]),
-        cursor_op().prop_map(|o| vec![o]),
-        cursor_op().prop_map(|o| vec![o]),
-        cursor_op().prop_map(|o| vec![o]),
+        2 => sweep,
+        1 => (1usize..=12).prop_map(|n| vec![Op::Next; n]),
+        1 => (1usize..=12).prop_map(|n| vec![Op::Prev; n]),
+        1 => (1usize..=40).prop_map(|n| vec![Op::Next; n]),
+        1 => (1usize..=40).prop_map(|n| vec![Op::Prev; n]),
+        3 => cursor_op().prop_map(|o| vec![o]),
     ];
     vec(burst, 1..=(max_len / 6).max(2))
         .prop_map(move |bs| {
